@@ -205,7 +205,8 @@ func (k *keyManagementContext) rotateTheirKey(senderKeyID uint32, pubDHKey *big.
 	}
 }
 
-func (k *keyManagementContext) calculateDHSessionKeys(ourKeyID, theirKeyID uint32, v otrVersion) (sessionKeys, error) {
+// sessionKeysFor derives the session keys for the given key ids without recording anything
+func (k *keyManagementContext) sessionKeysFor(ourKeyID, theirKeyID uint32, v otrVersion) (sessionKeys, error) {
 	var ret sessionKeys
 
 	ourPrivKey, ourPubKey, err := k.pickOurKeys(ourKeyID)
@@ -218,7 +219,15 @@ func (k *keyManagementContext) calculateDHSessionKeys(ourKeyID, theirKeyID uint3
 		return ret, err
 	}
 
-	ret = calculateDHSessionKeys(ourPrivKey, ourPubKey, theirPubKey, v)
+	return calculateDHSessionKeys(ourPrivKey, ourPubKey, theirPubKey, v), nil
+}
+
+func (k *keyManagementContext) calculateDHSessionKeys(ourKeyID, theirKeyID uint32, v otrVersion) (sessionKeys, error) {
+	ret, err := k.sessionKeysFor(ourKeyID, theirKeyID, v)
+	if err != nil {
+		return ret, err
+	}
+
 	k.macKeyHistory.addKeys(ourKeyID, theirKeyID, ret.receivingMACKey)
 
 	return ret, nil
